@@ -1,6 +1,7 @@
 package connh
 
 import (
+	"bytes"
 	"context"
 	"crypto/ecdh"
 	"crypto/hpke"
@@ -21,13 +22,13 @@ import (
 // Sess is one case of the Conn family: it accumulates the op lines and runs the implementation.
 type Sess struct {
 	wscratch []byte // reused write buffer (see Write)
-	Keys  []ech.Key
-	Ops   []core.Op
-	Fake  *FakeConn
-	Conn  *ech.Conn
-	seen  int // bytes of Fake.Out already reported
-	recip map[int]*hpke.Recipient
-	info  map[int]sealInfo
+	Keys     []ech.Key
+	Ops      []core.Op
+	Fake     *FakeConn
+	Conn     *ech.Conn
+	seen     int // bytes of Fake.Out already reported
+	recip    map[int]*hpke.Recipient
+	info     map[int]sealInfo
 	// what the real AEAD decided for registered records (validation of the ideal-HPKE table)
 	Opened []OpenFact
 }
@@ -60,6 +61,22 @@ func (s *Sess) S(line, note string) {
 func NewSess(keys []ech.Key) *Sess {
 	s := &Sess{Keys: keys, recip: map[int]*hpke.Recipient{}, info: map[int]sealInfo{}}
 	s.m("reset", "ok", "")
+	// the application has looked at its configs before (to derive the next key generation, say) and
+	// edited what Spec() gave it: that is its own copy
+	for _, k := range keys {
+		// (parsed from a copy of the bytes: the parsed byte fields are views into what was parsed)
+		if spec, err := ech.Config(bytes.Clone(k.Config)).Spec(); err == nil {
+			for i := range spec.CipherSuites {
+				spec.CipherSuites[i].KDF, spec.CipherSuites[i].AEAD = 0x7777, 0x7777
+			}
+			for i := range spec.PublicName {
+				spec.PublicName[i] = '#'
+			}
+			for i := range spec.PublicKey {
+				spec.PublicKey[i] ^= 0xff
+			}
+		}
+	}
 	for _, k := range keys {
 		s.m(fmt.Sprintf("key %s %s", core.Hex(k.Config), core.Hex(k.PrivateKey)), "ok", "")
 		if spec, err := ech.Config(k.Config).Spec(); err == nil {
